@@ -314,8 +314,18 @@ def x6_fallback_contract(ctx) -> None:
     f = ev.node
     ctx.analysed(ev)
     calls = [c for c in walk_local(f) if isinstance(c, ast.Call) and isinstance(c.func, ast.Attribute) and c.func.attr == "expand_comb_class"]
-    first = [c for c in calls if any(k.arg == "reverse" and isinstance(k.value, ast.Constant) and k.value.value is False for k in c.keywords)]
-    second = [c for c in calls if any(k.arg == "reverse" and isinstance(k.value, ast.Constant) and k.value.value is True for k in c.keywords)]
+    ecm = P.need_method(SPEC, "expand_comb_class", own=True)
+    rpos = ecm.params()[1:].index("reverse") if "reverse" in ecm.params() else None
+
+    def _rev(c):
+        for k in c.keywords:
+            if k.arg == "reverse":
+                return k.value
+        if rpos is not None and len(c.args) > rpos:
+            return c.args[rpos]
+        return None
+    first = [c for c in calls if isinstance(_rev(c), ast.Constant) and _rev(c).value is False]
+    second = [c for c in calls if isinstance(_rev(c), ast.Constant) and _rev(c).value is True]
     if not first or not second:
         ctx.violation("X6", f, "expand_verified must try reverse=False first and reverse=True as the fallback", construct=f"{SPEC}.expand_verified attempts")
         return
